@@ -147,3 +147,77 @@ def incoming(seed, tier):
                    bsend("PUBLISH", id=2, msg={"topic": "a", "q": q, "m": "B#2"}), bsend("PUBREL", id=2), do("b.cut"), do("newclient"), do("connect"),
                    bsend("PUBLISH", id=1, dup=True, msg={"topic": "a", "q": q, "m": "B#1"}), bsend("PUBREL", id=1)], cbfail=[nth])
     return g.scripts
+
+
+def service(seed, tier):
+    """C17: failure schedules x API call sequences x Start/Stop"""
+    g = CGen("service", seed, 17000)
+    rng = g.rng
+    topics = ["a", "b", "c/d", "e/+", "#"]
+
+    def cmd(i, th=0):
+        r = rng.random()
+        if r < 0.45:
+            return {"do": "svc.publish", "th": th, "msg": {"topic": rng.choice(["a", "b", "c/d"]), "q": rng.choice([0, 1, 1, 2]), "m": "S#%d" % i}}
+        if r < 0.8:
+            return {"do": "svc.subscribe", "th": th, "subs": [[t, rng.randint(0, 2)] for t in rng.sample(topics, rng.randint(1, 3))]}
+        return {"do": "svc.unsubscribe", "th": th, "topics": rng.sample(topics, rng.randint(1, 2))}
+
+    n = 160 if tier == "thorough" else 45
+    for k in range(n):
+        clean = rng.random() < 0.35
+        cfgk = {"clean": clean}
+        ndial = 6
+        cfgk["dialfails"] = sorted(rng.sample(range(1, ndial), rng.choice([0, 0, 1, 2])))
+        cfgk["noconnacks"] = sorted(rng.sample(range(1, ndial), rng.choice([0, 0, 1])))
+        cfgk["denies"] = sorted(rng.sample(range(1, ndial), rng.choice([0, 0, 1])))
+        cfgk["subfails"] = sorted(rng.sample(range(1, ndial), rng.choice([0, 0, 0, 1])))
+        cfgk["faults"] = [rng.choice([None, None, {"op": rng.randint(1, 12), "when": rng.choice(["before", "after"])}]) for _ in range(ndial)]
+        steps = []
+        i = 0
+        for _ in range(rng.randint(0, 3)):          # commands issued before Start
+            i += 1
+            steps.append(cmd(i))
+        steps.append({"do": "svc.start"})
+        for _ in range(rng.randint(3, 10)):
+            r = rng.random()
+            if r < 0.6:
+                i += 1
+                steps.append(cmd(i, th=rng.randint(0, 2)))
+            elif r < 0.7:
+                steps.append({"do": "b.cut"})
+            elif r < 0.78:
+                steps.append({"do": "wait", "ms": rng.choice([3, 15, 40])})
+            elif r < 0.86:
+                steps += [{"do": "b.mode", "mode": "manual"}]
+            elif r < 0.93:
+                steps += [{"do": "b.ack", "n": rng.randint(0, 2)}, {"do": "b.mode", "mode": "auto"}]
+            else:
+                steps += [{"do": "svc.stop", "clear": rng.random() < 0.5}, {"do": "svc.start"}]
+        steps += [{"do": "b.mode", "mode": "auto"}, {"do": "b.ack", "n": 0}, {"do": "wait", "ms": 30}]
+        if rng.random() < 0.6:
+            steps.append({"do": "svc.stop", "clear": rng.random() < 0.6})
+            if rng.random() < 0.5:
+                i += 1
+                steps += [cmd(i), {"do": "svc.start"}, {"do": "wait", "ms": 30}]
+        g.add(steps, mode="concurrent" if k % 4 == 3 else "step", **cfgk)
+    # directed: service never online, Stop(true) must cancel queued commands; restart afterwards
+    g.add([{"do": "svc.start"}, cmd(1), cmd(2), cmd(3), {"do": "wait", "ms": 20}, {"do": "svc.stop", "clear": True}, {"do": "svc.start"}, cmd(4), {"do": "wait", "ms": 40}],
+          dialfails=[1, 2, 3, 4, 5, 6, 7, 8, 9, 10, 11, 12, 13, 14, 15, 16], clean=False)
+    # directed: CONNECT cannot be sent (first operation fails) several times, then Stop
+    g.add([{"do": "svc.start"}, cmd(1), {"do": "wait", "ms": 40}, {"do": "svc.stop", "clear": False}, {"do": "svc.start"}, {"do": "wait", "ms": 40}],
+          faults=[{"op": 1, "when": "before"}] * 3, clean=False)
+    # directed: rejected subscription; subscribe / unsubscribe bookkeeping across reconnects
+    for clean in (False, True):
+        g.add([{"do": "svc.start"}, {"do": "svc.subscribe", "subs": [["a", 1]]}, {"do": "svc.subscribe", "subs": [["b", 2], ["c/d", 0]]}, {"do": "b.cut"},
+               {"do": "wait", "ms": 30}, {"do": "svc.unsubscribe", "topics": ["a"]}, {"do": "svc.subscribe", "subs": [["b", 0]]}, {"do": "b.cut"}, {"do": "wait", "ms": 30},
+               {"do": "svc.publish", "msg": {"topic": "a", "q": 1, "m": "S#1"}}, {"do": "svc.stop", "clear": True}], clean=clean, subfails=[2])
+    # directed: futures survive a reconnect (persistent) / are displaced by id reuse (clean)
+    for clean in (False, True):
+        g.add([{"do": "svc.start"}, {"do": "wait", "ms": 20}, {"do": "b.mode", "mode": "manual"}, {"do": "svc.publish", "msg": {"topic": "a", "q": 1, "m": "S#1"}},
+               {"do": "svc.publish", "msg": {"topic": "a", "q": 2, "m": "S#2"}}, {"do": "b.cut"}, {"do": "b.mode", "mode": "auto"}, {"do": "wait", "ms": 40},
+               {"do": "svc.publish", "msg": {"topic": "a", "q": 1, "m": "S#3"}}, {"do": "wait", "ms": 20}, {"do": "svc.stop", "clear": True}], clean=clean)
+    # directed: Start / Stop(true) / Start, then a drop while a publish is unacknowledged (the store must be protected again)
+    g.add([{"do": "svc.start"}, {"do": "wait", "ms": 20}, {"do": "svc.stop", "clear": True}, {"do": "svc.start"}, {"do": "wait", "ms": 20}, {"do": "b.mode", "mode": "manual"},
+           {"do": "svc.publish", "msg": {"topic": "a", "q": 1, "m": "S#1"}}, {"do": "b.cut"}, {"do": "b.mode", "mode": "auto"}, {"do": "wait", "ms": 50}, {"do": "svc.stop", "clear": False}], clean=False)
+    return g.scripts
